@@ -7,7 +7,8 @@
     the implemented algorithm over an explicit heap of shared nodes. *)
 From Coq Require Import List Arith Bool.
 From RimeV Require Import CfgC.Str CfgC.Tree CfgC.Spec CfgC.Impl CfgC.ImplFacts CfgC.DepsProofs
-  CfgC.TermProofs CfgC.EditProofs CfgC.SpecProofs CfgC.ShareProofs CfgC.ConvProofs CfgC.Examples.
+  CfgC.TermProofs CfgC.EditProofs CfgC.SpecProofs CfgC.ShareProofs CfgC.ConvProofs CfgC.PlainProofs
+  CfgC.Examples.
 Import ListNotations.
 From Coq.Strings Require String.
 Import String.StringSyntax.
@@ -120,6 +121,29 @@ Proof.
 Qed.
 Print Assumptions C14_plain_fixed_convert.
 
+(** the whole of ConfigBuilder::LoadConfig (Compile, the vacuous automatic
+    patch, Link, BuildInfoPlugin) on a directive-free map document *)
+Theorem C14_plain_fixed_impl :
+  forall ds wf f name m,
+  alookup (to_resource_id name) ds = Some (YMap m) ->
+  directive_free (YMap m) = true ->
+  alookup (custom_id (to_resource_id name)) ds = None ->
+  ends_with (to_resource_id name) s_schema = false ->
+  ends_with (to_resource_id name) s_custom = false ->
+  (forall e, In e m -> str_eqb (fst e) s_build_info = false) ->
+  S (ydepth (YMap m)) <= wf ->
+  let o := compile_impl ds wf (S f) name in
+  o_tree o = y2item (YMap m) /\ o_loaded o = true /\ o_linked o = true /\
+  o_oof o = false /\ o_woof o = false /\ o_ub o = false.
+Proof. exact impl_plain_fixed. Qed.
+Print Assumptions C14_plain_fixed_impl.
+
+Theorem C14_plain_fixed_nonvacuous :
+  directive_free y_starcraft = true /\ directive_free y_config_test = true /\
+  o_tree (compile_impl fixture_docs 60 400 (bs "starcraft")) = y2item y_starcraft.
+Proof. vm_compute. repeat split. Qed.
+Print Assumptions C14_plain_fixed_nonvacuous.
+
 (** * sources stay untouched: no write through sharing *)
 
 (** A write through a fresh copy-on-write reference changes no node that
@@ -190,6 +214,24 @@ Definition C14_impl_refines_spec_full : Prop :=
     fl_clear fl = true -> loaded = true ->
     o_tree (compile_impl ds wf fuel name) = (if linked then v else o_tree (compile_impl ds wf fuel name)) /\
     o_linked (compile_impl ds wf fuel name) = linked.
+
+(** proved part: directive-free map documents (both sides are the document) *)
+Theorem C14_impl_refines_spec_partial :
+  forall ds wf f sf name m,
+  alookup (to_resource_id name) ds = Some (YMap m) ->
+  directive_free (YMap m) = true ->
+  alookup (custom_id (to_resource_id name)) ds = None ->
+  ends_with (to_resource_id name) s_schema = false ->
+  ends_with (to_resource_id name) s_custom = false ->
+  (forall e, In e m -> str_eqb (fst e) s_build_info = false) ->
+  S (ydepth (YMap m)) <= wf ->
+  o_tree (compile_impl ds wf (S f) name) = compile_spec ds (S sf) name.
+Proof.
+  intros ds wf f sf name m H1 H2 H3 H4 H5 H6 H7.
+  destruct (impl_plain_fixed ds wf f name m H1 H2 H3 H4 H5 H6 H7) as [E _].
+  unfold compile_spec. rewrite (spec_plain_fixed ds sf name (YMap m) H1 H2 H3 H4). exact E.
+Qed.
+Print Assumptions C14_impl_refines_spec_partial.
 
 (** proved instances: the repository's own fixtures (computed), with includes,
     patch lists, appends, merges, optional references; and the cyclic fixture
